@@ -16,7 +16,7 @@ func init() { register("TestC01_Converge", runMW) }
 func TestC01_Converge(t *testing.T) {
 	st := newStats(t, "C01", "TestC01_Converge", "histories of 2-40 steps by 1-4 writers on one prefix (autocommit statements, transactions of 1-3 statements, refreshes, byte-identical retries on any writer, partial opens that commit merges of a subset of the frontier), unique write times in arbitrary order; at generated checkpoints and at the end 4-6 readers on copies of the bucket (read-only and read-write, four merge orders through the permutation hook, plus copies in which every retired version is listed as current again) must return identical rows, equal to the operation-based reference model; then three read-write opens in a row must leave one current version and write nothing; non-trivial = a checkpoint with >=3 unmerged versions and a key written by >=2 writers")
 	g := mwGenCfg{maxWriters: 4, keyChoices: []int{2, 3, 5, 8}, maxSteps: 40,
-		wStmt: 10, wTxn: 3, wRefresh: 2, wRetry: 1, wPartial: 2, wObserve: 1, wIns: 4, wUpd: 4, wDel: 2, multiRow: true}
+		wStmt: 10, wTxn: 3, wRefresh: 2, wRetry: 1, wPartial: 2, wObserve: 1, wIns: 4, wUpd: 4, wDel: 2, multiRow: true, cacheAndRollback: true}
 	checkRapid(t, st, func(rt *rapid.T) MWCase { return genMWCase(rt, g) }, runMW)
 }
 
@@ -25,6 +25,6 @@ func init() { register("TestC02_Model", runMW) }
 func TestC02_Model(t *testing.T) {
 	st := newStats(t, "C02", "TestC02_Model", "the multi-writer runner with few keys (1-3) and long per-key sequences (insert, partial updates, delete, re-insert with column lists) at arbitrary, non-monotone unique write times over 1-3 writers with refreshes at generated points; after every statement the issuing writer's outcome class and rows, and at checkpoints all merged observers, are compared with the operation-based reference model (status by latest INSERT/DELETE, each column by latest assignment); non-trivial as for C01")
 	g := mwGenCfg{maxWriters: 3, keyChoices: []int{1, 2, 3}, maxSteps: 40,
-		wStmt: 14, wTxn: 3, wRefresh: 3, wRetry: 0, wPartial: 1, wObserve: 1, wIns: 3, wUpd: 5, wDel: 3, multiRow: false}
+		wStmt: 14, wTxn: 3, wRefresh: 3, wRetry: 0, wPartial: 1, wObserve: 1, wIns: 3, wUpd: 5, wDel: 3, multiRow: false, cacheAndRollback: true}
 	checkRapid(t, st, func(rt *rapid.T) MWCase { return genMWCase(rt, g) }, runMW)
 }
